@@ -945,13 +945,13 @@ def request_len(op, sid=1):
 def o_C12(I, ref_len):
     """ref_len: op id -> length of the packet that operation writes when no limit applies (from the reference script)"""
     out = []
-    M = None
-    for e in I.events:
-        if e['kind'] == 'in' and e['pkt'] and e['pkt']['type'] == 2 and e['ctx'] in ('connect', 'authorize'):
-            M = pget(e['pkt']['props'], 39)
+    # the limit in force for an operation is the one announced by the most recent CONNACK before it (absent = no limit)
+    announced = [(e['seg'], pget(e['pkt']['props'], 39)) for e in I.events
+                 if e['kind'] == 'in' and e['pkt'] and e['pkt']['type'] == 2 and e['ctx'] in ('connect', 'authorize')]
     for op in I.ops.values():
         if op.done is None and not op.w:
             continue
+        M = ([None] + [v for sg, v in announced if sg <= op.seg])[-1]
         L = ref_len.get(op.id)
         if L is None:
             nsub = len([o for o in I.ops.values() if o.kind == 'SUBSCRIBE' and o.id <= op.id])
